@@ -145,6 +145,10 @@ func main() {
 	if *budget == 0 {
 		if *tier == "thorough" {
 			*budget = 25 * time.Minute
+			switch *prop {
+			case "C06", "C13", "C15", "C16":
+				*budget = 45 * time.Minute // many donors / long sequence alphabets
+			}
 		} else {
 			*budget = 4 * time.Minute
 		}
